@@ -299,6 +299,18 @@ def check_string(L, a, is_bridging):
                     fails.append(("split", f"{lower} {upper}"))
         except Exception as err:  # pylint: disable=broad-except
             fails.append(("bridges-raised", repr(err)[:100]))
+    if a.strand == -1 and len(a.parts) > 1:
+        # the question may be asked with allow_reversing (as input validation does): when the answer is still "bridges", the
+        # location has to be left as it was given, whatever was tried on the way (asked on a copy: a "no" may reorder the parts)
+        try:
+            copy = dec(enc(a))
+            before = str(copy)
+            for _ in range(2):
+                if location_bridges_origin(copy, allow_reversing=True) and str(copy) != before:
+                    fails.append(("bridges-query-changed-location", f"{before} -> {copy}"))
+                    break
+        except Exception as err:  # pylint: disable=broad-except
+            fails.append(("bridges-raised", repr(err)[:100]))
     try:
         pruned = remove_redundant_exons(a)
         sets = R.part_sets(pruned)
@@ -491,7 +503,8 @@ def run_shard(shard):
                 res.nontrivial += 1
                 for clause, detail in check_string(L, a, True):
                     res.fail({"op": "string", "L": L, "a": enc(a), "bridging": True}, clause, detail)
-        for a, flag in [(x, False) for x in _multi_exon(L)] + [(x, None) for x in _redundant_exons(L)]:
+        ring_exons = [(x, None) for x in ring_multi_exon(L, -1)] if L <= 8 else []
+        for a, flag in [(x, False) for x in _multi_exon(L)] + [(x, None) for x in _redundant_exons(L)] + ring_exons:
             res.evals += 1
             res.nontrivial += 1
             case = {"op": "string", "L": L, "a": enc(a), "bridging": flag}
